@@ -37,7 +37,9 @@ class BatchSpec(SeqSpec):
     def _cfg(rng, mode=None, size=None, gated=None):
         mode = mode or rng.choice(["batch", "batch", "func", "func"])
         cfg = {"mode": mode, "size": size if size is not None else rng.choice([1, 2, 2, 3, 4]),
-               "maxwait_ms": 25, "margin_ms": 15}
+               # maxWait: mostly 25 ms; also 0 and negative durations (e.g. time.Until(a deadline that has passed)):
+               # every item has then waited "at least maxWait", a waiting consumer must get an underfilled batch at once
+               "maxwait_ms": rng.choice([25, 25, 25, 25, 5, 0, -1, -3600000]), "margin_ms": 15}
         if mode == "func":
             cfg["gated"] = (rng.random() < 0.5) if gated is None else gated
         return cfg
@@ -246,10 +248,33 @@ class BatchSpec(SeqSpec):
         ops += [["next", 1, 1], ["quiesce"]]
         return cfg, ops
 
+    def gen_keep_and_append(self, rng):
+        """The consumer keeps the batches it received and appends to them (the harness does, before every later Next)
+        while the batcher collects the following items: batches whose length leaves spare capacity behind them
+        (3, 5, 6, 7 items grown by append) must not share that capacity with the next batch."""
+        size = rng.choice([3, 5, 6, 7, 3, 5])
+        cfg = self._cfg(rng, mode=rng.choice(["batch", "func"]), size=size, gated=False)
+        cfg["maxwait_ms"] = 25
+        ops = []
+        item = 1
+        k = 0
+        for rnd in range(rng.choice([2, 3])):
+            n = size if rng.random() < 0.7 else rng.randrange(1, size)
+            for _ in range(n):
+                ops.append(["release", "item", item])
+                item += 1
+            ops.append(["quiesce"])
+            if n < size:
+                ops.append(["sleep"])
+            ops += [["next", k, k], ["quiesce"]]
+            k += 1
+        ops += [["release", "end"], ["next", k, k], ["quiesce"], ["next", k + 1, k + 1], ["quiesce"]]
+        return cfg, ops
+
     def gen(self, rng, tier, scale):
         n = int((150 if tier == "quick" else 2500) * scale)
         fams = [self.gen_random, self.gen_random, self.gen_random, self.gen_hang, self.gen_read_all,
-                self.gen_waiters, self.gen_full_latency, self.gen_close_points]
+                self.gen_waiters, self.gen_full_latency, self.gen_close_points, self.gen_keep_and_append]
         cases = []
         for i in range(n):
             f = fams[i % len(fams)]
